@@ -11,6 +11,7 @@ def checkScenario (evs : List Ev) : List String × Nat := Id.run do
   for e in evs do
     if e.ev == "crash" then fails := fails ++ [s!"C05 the process running corebgp died: {e.arg 1}"]
     if e.ev == "race" then fails := fails ++ [s!"C10 data race reported by the Go race detector: {e.arg 0}"]
+    if e.ev == "harness.bug" then fails := fails ++ [s!"HARNESS-BUG the scenario script itself panicked: {e.arg 0}"]
     if e.ev == "harness.timeout" then fails := fails ++ [s!"LIVENESS {e.arg 0}"]
     if e.ev == "api.hang" then fails := fails ++ [s!"C10 {e.arg 0} did not return within bounded time"]
     if e.ev == "alias" && e.arg 1 != "0" then fails := fails ++ ["C03 a delivered UPDATE slice was modified after delivery"]
